@@ -28,6 +28,8 @@ var currentImplements = ""
 
 func NewJavaAPIListener(jIdentMap map[string]core_domain.CodeDataStruct, diMap map[string]string) *JavaAPIListener {
 	isSpringRestController = false
+	hasEnterRestController = false
+	baseApiUrl = ""
 	currentClz = ""
 	currentPkg = ""
 	currentImplements = ""
